@@ -544,14 +544,14 @@ def r9_pivots(report, repo):
 
 def run(report, repo):
   try:
-    r1_r2_in_range(report, repo)
-    r3_converted(report, repo)
-    r4_all_in_range(report, repo)
-    r5_constructors(report, repo)
-    r6_within_percent(report, repo)
-    r7_factories(report, repo)
-    r8_identity(report, repo)
-    r9_pivots(report, repo)
+    report.guard(r1_r2_in_range, report, repo)
+    report.guard(r3_converted, report, repo)
+    report.guard(r4_all_in_range, report, repo)
+    report.guard(r5_constructors, report, repo)
+    report.guard(r6_within_percent, report, repo)
+    report.guard(r7_factories, report, repo)
+    report.guard(r8_identity, report, repo)
+    report.guard(r9_pivots, report, repo)
   except InterpRaise as e:
     raise core.AnalysisError('evaluator: unexpected raise %s (%s)' %
                              (e.kind, e.detail))
